@@ -253,6 +253,19 @@ instance (p : Params) : Decidable (Admissible p) := by unfold Admissible Fits; i
 /-- the scheduled time `y` is hit (within the manager's tolerance) by one of the times `acc` -/
 def HitBy (p : Params) (acc : List Rat) (y : Rat) : Prop := ∃ a ∈ acc, isclose p.rtol p.atol a y = true
 
+/-- constant-dt mode: the tolerance is small against the step — at every simulated time `v` of the
+    constructor's compatibility check, and at the final time, `2·(atol + rtol·|v|) < dt_init`.
+    Under this condition the constructor's match COUNT implies a match of every scheduled time. -/
+def SmallTol (p : Params) : Prop :=
+  (∀ v ∈ arange p.timeInit (p.timeFinal + p.dtInit) p.dtInit, 2 * (p.atol + p.rtol * absR v) < p.dtInit) ∧
+  2 * (p.atol + p.rtol * absR p.timeFinal) < p.dtInit
+
+instance (p : Params) : Decidable (SmallTol p) := by unfold SmallTol; infer_instance
+
+/-- the scheduled time `y` is hit in the sense of the constructor's compatibility check:
+    `np.isclose(y, a)` for an accepted time `a` (tolerance relative to `a`) -/
+def HitByC (p : Params) (acc : List Rat) (y : Rat) : Prop := ∃ a ∈ acc, isclose p.rtol p.atol y a = true
+
 /-- all outcomes on the tape are converged steps -/
 def AllConverged (os : List Outcome) : Prop := ∀ o ∈ os, ∃ it, o = .converged it
 
